@@ -1,8 +1,10 @@
 """Which engine decides which property."""
 from . import e1
+from .props import CLAIMS
 
 
 def run(pid, tier, seed, replay=None):
     if replay:
         return e1.replay_file(replay)
-    return e1.check_property(pid, tier, seed)
+    level = CLAIMS.get(pid, {}).get("level", "model_checking")
+    return e1.check_property(pid, tier, seed, level=level)
